@@ -46,13 +46,39 @@ func genCands(r *gen.Rand, n, maxOff int, fileNameChance int) []index.VerifC02Ca
 	return cs
 }
 
-func gatherCase(w *gen.Writer, r *gen.Rand) {
-	name := []byte(e2lib.GenName(r, r.Intn(3), r.Bool()))
-	na := r.Range(0, 4)
-	var atoms []index.VerifC02Atom
+type gatherDetail struct {
+	Name   []byte               `json:"name"`
+	Atoms  []index.VerifC02Atom `json:"atoms"`
+	RootOr bool                 `json:"rootOr"`
+}
+
+func gatherRun(w *gen.Writer, d gatherDetail, class string) {
 	var parts []string
-	fnChance := gen.Pick(r, []int{0, 0, 2, 5, 10})
 	visited := 0
+	for _, a := range d.Atoms {
+		if a.Known && a.Wrap != 1 && a.Wrap != 2 && a.Wrap != 3 {
+			visited += len(a.Cands)
+		}
+		parts = append(parts, fmt.Sprintf("%d:%d:%d:%s", a.Kind, a.Wrap, map[bool]int{false: 0, true: 1}[a.Known], showHookCands(a.Cands)))
+	}
+	as := "-"
+	if len(parts) > 0 {
+		as = strings.Join(parts, ";")
+	}
+	in := fmt.Sprintf("gather %s %d %s", gen.Hex(d.Name), map[bool]int{false: 0, true: 1}[d.RootOr], as)
+	got := index.VerifC02Gather(d.Name, d.Atoms, d.RootOr)
+	if class == "gather" && visited == 0 {
+		class = "gather/filename-fallback"
+	}
+	w.Emit(gen.Case{In: in, Impl: showHookCands(got), Class: class, Nontrivial: visited >= 3, Detail: gen.Detail(struct {
+		Gather gatherDetail `json:"gather"`
+	}{d})})
+}
+
+func gatherCase(w *gen.Writer, r *gen.Rand) {
+	d := gatherDetail{Name: []byte(e2lib.GenName(r, r.Intn(3), r.Bool()))}
+	na := r.Range(0, 4)
+	fnChance := gen.Pick(r, []int{0, 0, 2, 5, 10})
 	for i := 0; i < na; i++ {
 		a := index.VerifC02Atom{Kind: r.Intn(4), Wrap: gen.Pick(r, []int{0, 0, 0, 1, 2, 3, 4, 5, 6, 7}), Known: r.Chance(4, 5)}
 		if a.Wrap == 7 && a.Kind != 0 {
@@ -62,27 +88,26 @@ func gatherCase(w *gen.Writer, r *gen.Rand) {
 		if r.Chance(1, 4) { // an atom's own candidates are usually sorted
 			sort.Slice(a.Cands, func(i, j int) bool { return a.Cands[i].Off < a.Cands[j].Off })
 		}
-		atoms = append(atoms, a)
-		if a.Known && a.Wrap != 1 && a.Wrap != 2 && a.Wrap != 3 {
-			visited += len(a.Cands)
-		}
-		parts = append(parts, fmt.Sprintf("%d:%d:%d:%s", a.Kind, a.Wrap, map[bool]int{false: 0, true: 1}[a.Known], showHookCands(a.Cands)))
+		d.Atoms = append(d.Atoms, a)
 	}
-	rootOr := r.Bool()
-	as := "-"
-	if len(parts) > 0 {
-		as = strings.Join(parts, ";")
-	}
-	in := fmt.Sprintf("gather %s %d %s", gen.Hex(name), map[bool]int{false: 0, true: 1}[rootOr], as)
-	got := index.VerifC02Gather(name, atoms, rootOr)
-	class := "gather"
-	if visited == 0 {
-		class = "gather/filename-fallback"
-	}
-	w.Emit(gen.Case{In: in, Impl: showHookCands(got), Class: class, Nontrivial: visited >= 3})
+	d.RootOr = r.Bool()
+	gatherRun(w, d, "gather")
 }
 
 // ---- breakMatchesOnNewlines ----
+
+type breakDetail struct {
+	Text  []byte               `json:"text"`
+	Cands []index.VerifC02Cand `json:"cands"`
+}
+
+func breakRun(w *gen.Writer, d breakDetail, class string) {
+	in := fmt.Sprintf("brk %s %s", gen.Hex(d.Text), showHookCands(d.Cands))
+	got := index.VerifC02BreakOnNewlines(d.Text, d.Cands)
+	w.Emit(gen.Case{In: in, Impl: showHookCands(got), Class: class, Nontrivial: len(got) > len(d.Cands), Detail: gen.Detail(struct {
+		Break breakDetail `json:"break"`
+	}{d})})
+}
 
 func breakCase(w *gen.Writer, r *gen.Rand) {
 	text := e2lib.GenText(r, e2lib.Profile{MaxLines: 6, MaxTokens: 3, CRLF: r.Bool()})
@@ -96,12 +121,33 @@ func breakCase(w *gen.Writer, r *gen.Rand) {
 		sz := r.Intn(min(len(text)-off, 14) + 1)
 		cs = append(cs, index.VerifC02Cand{Off: uint32(off), Sz: uint32(sz)})
 	}
-	in := fmt.Sprintf("brk %s %s", gen.Hex(text), showHookCands(cs))
-	got := index.VerifC02BreakOnNewlines(text, cs)
-	w.Emit(gen.Case{In: in, Impl: showHookCands(got), Class: "break", Nontrivial: len(got) > len(cs)})
+	breakRun(w, breakDetail{text, cs}, "break")
 }
 
 // ---- makeRuneOffsetMap / lookup ----
+
+type romDetail struct {
+	Offs []uint32 `json:"offs"`
+	Rs   []uint32 `json:"rs"`
+}
+
+func romRun(w *gen.Writer, d romDetail, class string) {
+	m, res := index.VerifC02RuneOffsetMap(d.Offs, d.Rs)
+	pairs := func(ps [][2]uint32) string {
+		if len(ps) == 0 {
+			return "-"
+		}
+		var sb []string
+		for _, p := range ps {
+			sb = append(sb, fmt.Sprintf("%d.%d", p[0], p[1]))
+		}
+		return strings.Join(sb, ",")
+	}
+	in := fmt.Sprintf("rom %s %s", gen.NatList(d.Offs), gen.NatList(d.Rs))
+	w.Emit(gen.Case{In: in, Impl: fmt.Sprintf("m=%s res=%s", pairs(m), pairs(res)), Class: class, Nontrivial: len(m) > 0, Detail: gen.Detail(struct {
+		Rom romDetail `json:"rom"`
+	}{d})})
+}
 
 func romCase(w *gen.Writer, r *gen.Rand) {
 	n := r.Range(0, 12)
@@ -125,19 +171,7 @@ func romCase(w *gen.Writer, r *gen.Rand) {
 	for i := 0; i <= n; i++ {
 		rs = append(rs, uint32(100*i), uint32(100*i+99))
 	}
-	m, res := index.VerifC02RuneOffsetMap(offs, rs)
-	pairs := func(ps [][2]uint32) string {
-		if len(ps) == 0 {
-			return "-"
-		}
-		var sb []string
-		for _, p := range ps {
-			sb = append(sb, fmt.Sprintf("%d.%d", p[0], p[1]))
-		}
-		return strings.Join(sb, ",")
-	}
-	in := fmt.Sprintf("rom %s %s", gen.NatList(offs), gen.NatList(rs))
-	w.Emit(gen.Case{In: in, Impl: fmt.Sprintf("m=%s res=%s", pairs(m), pairs(res)), Class: "runeoffsetmap", Nontrivial: len(m) > 0})
+	romRun(w, romDetail{offs, rs}, "runeoffsetmap")
 }
 
 // ---- findOffset on a real shard ----
@@ -257,7 +291,12 @@ func runEntry(w *gen.Writer, path string, class string) {
 	if err := json.Unmarshal(b, &e); err != nil {
 		panic(fmt.Sprintf("%s: %v", path, err))
 	}
-	if e.Case != nil { // replay file: the case's detail is an E2ECase or a findoffDetail
+	var comp struct {
+		Gather *gatherDetail `json:"gather"`
+		Break  *breakDetail  `json:"break"`
+		Rom    *romDetail    `json:"rom"`
+	}
+	if e.Case != nil { // replay file: the case's detail says what to re-run
 		var c struct {
 			Detail json.RawMessage `json:"detail"`
 		}
@@ -265,13 +304,13 @@ func runEntry(w *gen.Writer, path string, class string) {
 			panic(err)
 		}
 		var ec e2lib.E2ECase
+		var fd findoffDetail
 		if json.Unmarshal(c.Detail, &ec) == nil && ec.Q.Op != "" {
 			e.E2E = &ec
+		} else if json.Unmarshal(c.Detail, &fd) == nil && len(fd.Docs) > 0 {
+			e.Findoff = &fd
 		} else {
-			var fd findoffDetail
-			if json.Unmarshal(c.Detail, &fd) == nil && len(fd.Docs) > 0 {
-				e.Findoff = &fd
-			}
+			json.Unmarshal(c.Detail, &comp)
 		}
 	}
 	switch {
@@ -279,6 +318,12 @@ func runEntry(w *gen.Writer, path string, class string) {
 		e2lib.RunE2E(w, "C02", *e.E2E, class)
 	case e.Findoff != nil:
 		findoffRun(w, e.Findoff.Docs, class)
+	case comp.Gather != nil:
+		gatherRun(w, *comp.Gather, class)
+	case comp.Break != nil:
+		breakRun(w, *comp.Break, class)
+	case comp.Rom != nil:
+		romRun(w, *comp.Rom, class)
 	default:
 		panic(path + ": nothing to run")
 	}
